@@ -4,7 +4,7 @@ import re
 from sa import ccp, guards, local
 from sa.facts import callee_name, norm
 from . import common
-from .C01 import find_escaper
+from .C01 import find_escaper, find_escape_entry
 
 ASTRAL = (0x10000, 0x10FFFF)
 
@@ -183,7 +183,7 @@ def run(ctx):
             ctx.violation("ESCP-1", (helper.path, "unit template"), "surrogate helper does not join encode_utf16 units rendered as \\u{<lower hex>}", helper.loc())
 
     # ---- ESCP-2
-    hits = find_escaper(lib)
+    hits = find_escape_entry(lib)
     if len(hits) != 1:
         ctx.anchor_lost("ESCP-2", "symbol escaper")
         return
